@@ -51,9 +51,9 @@ def equiDirection (yaw pitch : α) : Vec3 α :=
 def equiYaw (w j : Nat) : α := linspace (-Num.pi) Num.pi w j
 def equiPitch (h i : Nat) : α := linspace (-Num.pi * Num.half) (Num.pi * Num.half) h i
 
-/-- eccentricity of an equirectangular pixel for the gaze angles `(a0, a1)` = (yaw, pitch); NOT clamped in the source -/
+/-- eccentricity of an equirectangular pixel for the gaze angles `(a0, a1)` = (yaw, pitch); the dot product is clamped to `[-1, 1]` (source: since the repair of finding F38) -/
 def equiEccentricityAt (a0 a1 : α) (h w : Nat) (i j : Nat) : α :=
-  Num.acos (Vec3.dot (equiDirection a0 a1) (equiDirection (equiYaw w j) (equiPitch h i)))
+  Num.acos (Num.clamp (Vec3.dot (equiDirection a0 a1) (equiDirection (equiYaw w j) (equiPitch h i))) (-1) 1)
 
 /-- `make_equi_pooling_size_map_pixels` / `_lod` at pixel `[i, j]` -/
 def equiPoolingPixelsAt (quadratic : Bool) (a0 a1 : α) (h w : Nat) (alpha : α) (i j : Nat) : α :=
